@@ -217,7 +217,14 @@ pub fn parse_divert_line(input: &str) -> Result<Vec<Node>, CompilerError> {
         if !rest.is_empty() && !rest.starts_with("->") && rest.contains('(') {
             // Parse `target` or `target(args)` from `rest`
             let (target_name, args) = if let Some(open) = rest.find('(') {
-                let close = rest.rfind(')').unwrap_or(rest.len() - 1);
+                let close = rest
+                    .rfind(')')
+                    .filter(|close| *close > open)
+                    .ok_or_else(|| {
+                        CompilerError::invalid_source(
+                            "expected ')' after the arguments of '->->'".to_owned(),
+                        )
+                    })?;
                 let tname = rest[..open].trim().to_owned();
                 let args_str = &rest[open + 1..close];
                 let mut args = Vec::new();
